@@ -36,4 +36,7 @@ def subchecks(tier):
                    budget=600, load="heavy", resumptions=(1, 1))
     slotted = system_subcheck("slotted", sl, lambda spec: [TimeFlow()], lambda a, spec, res: a.get("rec_interrupted_service", 0) >= 2 and a.get("events", 0) >= 40,
                               classes=classes, n={"quick": 3600, "thorough": 30000}, rule="slotted nodes (capacitated, pre-emptive) under heavy load; same monitor")
-    return [base, slotted, fuzz_subcheck(base, tier)]
+    region = system_subcheck("sched_blocked", common.region_profile("C02"), lambda spec: [TimeFlow()],
+                             lambda a, spec, res: a.get("rec_interrupted_service", 0) >= 1 and a.get("blocked_records", 0) >= 1, classes=classes,
+                             n={"quick": 3600, "thorough": 30000}, rule="pre-emptive schedules x blocking region (heavy load, grid times); same monitor")
+    return [base, slotted, region, fuzz_subcheck(base, tier)]
